@@ -212,6 +212,52 @@ Section Decision.
     exists k1, pl1, pl2, kb1, kb2. repeat split; assumption.
   Qed.
 
+  (* ---------------- the TLS caller ---------------- *)
+  Lemma tls_accept_sound x spki expected p :
+    tls_accept on_curve verify x spki expected = Accept p ->
+    exists kb sg k,
+      x = TlsExt kb sg /\ decode_pubkey kb = KeyOk k /\
+      verify k (TLS_PREFIX ++ spki) sg = true /\
+      p = peer_id_of_key k /\ (expected = None \/ expected = Some p).
+  Proof.
+    unfold tls_accept. intros A. apply check_dialed_accept in A as [A D].
+    destruct x as [| | |kb sg]; cbn [tls_verify] in A; try discriminate.
+    destruct (decode_pubkey kb) as [k|e] eqn:DK; [|discriminate].
+    destruct (verify k (TLS_PREFIX ++ spki) sg) eqn:V; [|discriminate].
+    injection A as <-. exists kb, sg, k. auto.
+  Qed.
+
+  Lemma tls_accept_complete kb sg k spki expected :
+    decode_pubkey kb = KeyOk k -> verify k (TLS_PREFIX ++ spki) sg = true ->
+    (expected = None \/ expected = Some (peer_id_of_key k)) ->
+    tls_accept on_curve verify (TlsExt kb sg) spki expected = Accept (peer_id_of_key k).
+  Proof.
+    intros DK V D. unfold tls_accept. cbn [tls_verify]. rewrite DK, V.
+    destruct D as [-> | ->]; cbn [check_dialed]; [reflexivity|]. rewrite pid_eqb_refl. reflexivity.
+  Qed.
+
+  Lemma tls_reject_mismatch x spki p q :
+    tls_verify on_curve verify x spki = Accept p -> q <> p ->
+    tls_accept on_curve verify x spki (Some q) = Reject EMismatch.
+  Proof.
+    intros A N. unfold tls_accept. rewrite A. cbn [check_dialed]. rewrite (pid_eqb_neq _ _ N). reflexivity.
+  Qed.
+
+  (* an extension made for one certificate key is refused in a certificate with another key *)
+  Lemma tls_binding :
+    (forall pk m m' sg, verify pk m sg = true -> verify pk m' sg = true -> m = m') ->
+    forall x spki spki' e' p',
+      tls_accept on_curve verify x spki' e' = Accept p' -> spki <> spki' ->
+      forall e, tls_accept on_curve verify x spki e = Reject ETlsIssuer.
+  Proof.
+    intros SM x spki spki' e' p' A N e.
+    apply tls_accept_sound in A as (kb & sg & k & -> & DK & V & _ & _).
+    unfold tls_accept. cbn [tls_verify]. rewrite DK.
+    destruct (verify k (TLS_PREFIX ++ spki) sg) eqn:V2.
+    - pose proof (SM _ _ _ _ V V2) as E. apply app_inv_head in E. congruence.
+    - destruct e; reflexivity.
+  Qed.
+
   (* ---------------- binding to the session's static key ---------------- *)
   Section Binding.
     (* the unforgeability idealisation: a signature is valid for one message only.  This is
@@ -389,6 +435,59 @@ Proof.
   change (1 =? 1) with true. change (2 =? 2) with true. cbn iota.
   rewrite (pchunk_app (len key) key) by (try exact Lk; unfold len; lia).
   cbn [p_sig].
+  rewrite dec_payload_step, pkey_18.
+  change (2 =? 1) with false. change (2 =? 2) with true. cbn iota.
+  rewrite (pchunk_all (len sg) sg) by (try exact Ls; unfold len; lia).
+  cbn [p_key]. rewrite dec_payload_nil. reflexivity.
+Qed.
+
+(* duplicate fields: the last one wins (prost replaces an optional bytes field) *)
+Lemma decode_payload_last_key_wins k1 k2 sg :
+  len k1 < 128 -> len k2 < 128 -> len sg < 128 ->
+  decode_payload ([10; len k1] ++ k1 ++ [10; len k2] ++ k2 ++ [18; len sg] ++ sg)
+  = Some (mkPayload (Some k2) (Some sg)).
+Proof.
+  intros L1 L2 Ls. unfold decode_payload.
+  set (l := [10; len k1] ++ k1 ++ [10; len k2] ++ k2 ++ [18; len sg] ++ sg).
+  generalize (fuel_for l) at 2. intros sf.
+  assert (F : exists f, fuel_for l = S (S (S f))).
+  { unfold fuel_for. subst l. cbn [app length].
+    match goal with |- context [S (S (length ?x))] => generalize (length x) end.
+    intros n. exists (2 * n + 3)%nat. lia. }
+  destruct F as [f ->]. subst l. cbn [app].
+  rewrite dec_payload_step, pkey_10.
+  change (1 =? 1) with true. change (2 =? 2) with true. cbn iota.
+  rewrite (pchunk_app (len k1) k1) by (try exact L1; unfold len; lia). cbn [p_sig app].
+  rewrite dec_payload_step, pkey_10.
+  change (1 =? 1) with true. change (2 =? 2) with true. cbn iota.
+  rewrite (pchunk_app (len k2) k2) by (try exact L2; unfold len; lia). cbn [p_sig app].
+  rewrite dec_payload_step, pkey_18.
+  change (2 =? 1) with false. change (2 =? 2) with true. cbn iota.
+  rewrite (pchunk_all (len sg) sg) by (try exact Ls; unfold len; lia).
+  cbn [p_key]. rewrite dec_payload_nil. reflexivity.
+Qed.
+
+(* an unknown varint field (here tag 3) between the two known ones is skipped *)
+Lemma decode_payload_unknown_field_skipped key v sg :
+  len key < 128 -> v < 128 -> len sg < 128 ->
+  decode_payload ([10; len key] ++ key ++ [24; v] ++ [18; len sg] ++ sg)
+  = Some (mkPayload (Some key) (Some sg)).
+Proof.
+  intros Lk Lv Ls. unfold decode_payload.
+  set (l := [10; len key] ++ key ++ [24; v] ++ [18; len sg] ++ sg).
+  assert (F : exists f, fuel_for l = S (S (S f))).
+  { unfold fuel_for. subst l. cbn [app length].
+    match goal with |- context [S (S (length ?x))] => generalize (length x) end.
+    intros n. exists (2 * n + 3)%nat. lia. }
+  destruct F as [f F]. rewrite F at 1. rewrite F. subst l. cbn [app].
+  rewrite dec_payload_step, pkey_10.
+  change (1 =? 1) with true. change (2 =? 2) with true. cbn iota.
+  rewrite (pchunk_app (len key) key) by (try exact Lk; unfold len; lia). cbn [p_sig app].
+  rewrite dec_payload_step.
+  rewrite (pkey_small 24) by (try lia; vm_compute; discriminate).
+  change (24 / 8) with 3. change (24 mod 8) with 0.
+  change (3 =? 1) with false. change (3 =? 2) with false. change (3 =? 4) with false. cbn iota.
+  cbn [skip RECURSION_LIMIT]. rewrite (pvarint_small v) by exact Lv.
   rewrite dec_payload_step, pkey_18.
   change (2 =? 1) with false. change (2 =? 2) with true. cbn iota.
   rewrite (pchunk_all (len sg) sg) by (try exact Ls; unfold len; lia).
